@@ -1037,10 +1037,16 @@ int main(int argc, char** argv) {
                     out(std::string("OI ") + hex32(io.lower()) + " " + hex32(io.upper()) + " " + (io.isSafe() ? "0" : "1") + " | "
                         + hex32(ie.lower()) + " " + hex32(ie.upper()) + " " + (ie.isSafe() ? "0" : "1")
                         + " pushed_len=" + std::to_string(tape_len(*pushed)) + " base_len=" + std::to_string(tape_len(*tape)));
-                    for (int k = 0; k < 40; ++k) {
+                    // points 40..55 come from the OUTERMOST box: after an interval evaluation on this (smaller)
+                    // box the evaluators must still answer correctly, on the base tape, for points outside it
+                    const Eigen::Vector3f lo0(of_hex32(t[4]), of_hex32(t[5]), of_hex32(t[6]));
+                    const Eigen::Vector3f hi0(of_hex32(t[7]), of_hex32(t[8]), of_hex32(t[9]));
+                    for (int k = 0; k < (b == 0 ? 40 : 56); ++k) {
                         Eigen::Vector3f p;
+                        const bool outer = k >= 40;
                         for (int a = 0; a < 3; ++a) {
                             float f = (k < 8) ? (((k >> a) & 1) ? 1.0f : 0.0f) : (k == 8 ? 0.5f : d01(rng));
+                            if (outer) { p(a) = lo0(a) + f * (hi0(a) - lo0(a)); continue; }
                             p(a) = lo(a) + f * (hi(a) - lo(a));
                             if (k >= 9 && k < 20) {
                                 static const float crit[] = {0.0f, 1.0f, -1.0f, 0.5f, -0.5f};
@@ -1054,15 +1060,22 @@ int main(int argc, char** argv) {
                         std::fesetround(FE_TONEAREST);
                         // interval soundness of the oracle tree on its own values
                         float sl = 1e-4f * std::max(1.0f, std::max(std::fabs(io.lower()), std::fabs(io.upper())));
-                        if (io.isSafe() && (std::isnan(vo) || vo < io.lower() - sl || vo > io.upper() + sl)) { ++ibad; note("interval", p); }
+                        if (!outer && io.isSafe() && (std::isnan(vo) || vo < io.lower() - sl || vo > io.upper() + sl)) { ++ibad; note("interval", p); }
                         if (!std::isfinite(vo) || !std::isfinite(ve) || std::fabs(vo) > 1e3f) continue;
                         // nested specialisation leaves the answer unchanged, bit for bit
                         ++ppts;
-                        float vp = eo.value(p, *pushed);
-                        Eigen::Vector4f dp = eo.deriv(p, *pushed);
                         Eigen::Vector4f d0 = eo.deriv(p);
-                        if (memcmp(&vp, &vo, 4) != 0) { ++pbad; note("push-value", p); }
-                        else if (!(dp.array().isNaN().any() || d0.array().isNaN().any()) && (dp - d0).norm() > 1e-5f * (1 + d0.norm())) { ++pbad; note("push-deriv", p); }
+                        if (!outer) {
+                            float vp = eo.value(p, *pushed);
+                            Eigen::Vector4f dp = eo.deriv(p, *pushed);
+                            if (memcmp(&vp, &vo, 4) != 0) { ++pbad; note("push-value", p); }
+                            else if (!(dp.array().isNaN().any() || d0.array().isNaN().any()) && (dp - d0).norm() > 1e-5f * (1 + d0.norm())) { ++pbad; note("push-deriv", p); }
+                        }
+                        {   // a point-specialised tape answers like the base tape at its own point
+                            auto vpp = eo.valueAndPush(p);
+                            float v1 = vpp.first, v2 = eo.value(p, *vpp.second);
+                            if (memcmp(&v1, &vo, 4) != 0 || memcmp(&v2, &vo, 4) != 0) { ++pbad; note("pointpush-value", p); }
+                        }
                         // gradients at unambiguous points
                         Eigen::Vector4f de = ee.deriv(p);
                         eo.set(p, 0); ee.set(p, 0);
